@@ -681,6 +681,30 @@ fn main_check(ctx: &Ctx) -> Outcome {
             }
         }
     }
+    // every printable ASCII byte and TAB / LF / CR as data between two letters, into a Vec<u8>, for 5 colour pairs: the
+    // data must come through untouched whatever it is (the judge reads the data back by stripping the output, so other
+    // control bytes are left out)
+    for b in (0x20..=0x7eu8).chain([0x09, 0x0a, 0x0d]) {
+        let data = [b'x', b, b'y'];
+        for (fgi, bgi) in [(0usize, 0usize), (2, 0), (0, 5), (10, 16), (16, 1)] {
+            direct_runs += 1;
+            let res = match run_direct(0, fgi, bgi, &data, &mut file) {
+                Ok((bytes, r)) => judge(fgi, bgi, &data, &bytes, None, &r, &opts).map(|_| ()),
+                Err(m) => Err(("harness-io".to_string(), m)),
+            };
+            if let Err((clause, msg)) = res {
+                if out.findings.len() < 260 {
+                    out.findings.push(Finding {
+                        system: "write_colored/Vec<u8>/every printable byte".into(),
+                        clause,
+                        case: vec![format!("fg={}", colour_name(fgi)), format!("bg={}", colour_name(bgi)), format!("data=x<0x{b:02x}>y")],
+                        message: msg,
+                        replay: json!({"kind":"direct-bytes","fg":fgi,"bg":bgi,"data":hex(&data)}),
+                    });
+                }
+            }
+        }
+    }
     drop(file);
     // Files whose writes the OS rejects: a read-only handle and /dev/full.  Whatever the call
     // returns, it must not report data bytes as accepted that the file did not take.
@@ -771,6 +795,12 @@ fn replay(v: &Value) -> Result<(), String> {
             let mut s = Script::new(choices);
             let r = run_scripted(path, fgi, bgi, &tokens[di].1, &mut s, points);
             judge_run(fgi, bgi, &tokens[di].1, &r, &opts).map(|_| ()).map_err(|(c, m)| format!("{c}: {m}"))
+        }
+        "direct-bytes" => {
+            let data = unhex(v["data"].as_str().unwrap_or(""));
+            let mut file = None;
+            let (bytes, r) = run_direct(0, fgi, bgi, &data, &mut file)?;
+            judge(fgi, bgi, &data, &bytes, None, &r, &opts).map(|_| ()).map_err(|(c, m)| format!("{c}: {m}"))
         }
         "direct" => {
             let kind = v["writer"].as_u64().ok_or("writer")? as usize;
